@@ -35,6 +35,7 @@ type erConfig struct {
 	Lanes     [][]int  `json:"lanes"` // per task, empty = default lane 0
 	Scripts   []script `json:"scripts"`
 	AbortResp int      `json:"abort_resp"` // released while dying: 0 = normal result, 1 = error, 2 = Retry{}
+	Order     []int    `json:"order,omitempty"` // order in which the tasks are added to the change (nil = index order)
 }
 
 func (c *erConfig) String() string {
@@ -42,7 +43,11 @@ func (c *erConfig) String() string {
 	for _, s := range c.Scripts {
 		sc = append(sc, s.String())
 	}
-	return fmt.Sprintf("n=%d edges=%v lanes=%v scripts=%v abort=%d", c.N, c.Edges, c.Lanes, sc, c.AbortResp)
+	ord := ""
+	if len(c.Order) > 0 {
+		ord = fmt.Sprintf(" add-order=%v", c.Order)
+	}
+	return fmt.Sprintf("n=%d edges=%v lanes=%v scripts=%v abort=%d%s", c.N, c.Edges, c.Lanes, sc, c.AbortResp, ord)
 }
 
 func (c *erConfig) dependent(a, b int) bool {
@@ -172,8 +177,14 @@ func newWorld(cfg *erConfig, obs observer, keepCheckpoints bool) *world {
 	for _, e := range cfg.Edges {
 		w.tasks[e[1]].WaitFor(w.tasks[e[0]])
 	}
-	for _, t := range w.tasks {
-		w.chg.AddTask(t)
+	if len(cfg.Order) == cfg.N {
+		for _, i := range cfg.Order {
+			w.chg.AddTask(w.tasks[i])
+		}
+	} else {
+		for _, t := range w.tasks {
+			w.chg.AddTask(t)
+		}
 	}
 	w.st.Unlock()
 	w.attach()
